@@ -71,7 +71,7 @@ def labels_for(mod, fname):
     return [l for (l, st, args) in C.entries(fname)]
 
 
-def run(mod, tasks, hooks_cls=LibHooks, post=None, jobs=None):
+def run(mod, tasks, hooks_cls=LibHooks, post=None, jobs=None, tolerate=False):
     """tasks: list of (fname, label, opts) -> list of results in task order"""
     _G['mod'] = mod
     _G['hooks_cls'] = hooks_cls
@@ -80,7 +80,11 @@ def run(mod, tasks, hooks_cls=LibHooks, post=None, jobs=None):
     jobs = jobs or min(16, os.cpu_count() or 4)
     sys.setrecursionlimit(20000)
     if jobs == 1 or len(tasks) == 1:
-        return [_work(t) for t in tasks]
+        out = [_work(t) for t in tasks]
+        for r in out:
+            if not r['ok'] and not tolerate:
+                raise AnalysisBroken('analysis of %s [%s] failed: %s' % (r['fn'], r['label'], r['error']))
+        return out
     ctx = mp.get_context('fork')
     with ctx.Pool(jobs) as pool:
         # heavy tasks first for better packing
@@ -90,7 +94,7 @@ def run(mod, tasks, hooks_cls=LibHooks, post=None, jobs=None):
     for i, r in zip(order, res):
         out[i] = r
     for r in out:
-        if not r['ok']:
+        if not r['ok'] and not tolerate:
             raise AnalysisBroken('analysis of %s [%s] failed: %s' % (r['fn'], r['label'], r['error']))
     return out
 
